@@ -539,6 +539,62 @@ func c18HttpScenario(r *Rng, callers int, limit int, procs int) map[string]any {
 	return map[string]any{"op": "rpchttp.run", "limit": limit, "ops": events, "implMaxInflight": maxInflight, "implIssued": len(seenIDs), "callers": callers, "problems": problems}
 }
 
+// many callers issuing requests back to back against a backend that answers at once: every backend request must
+// carry an id of its own and every caller must get its own result (id allocation is where a lost atomicity shows)
+func c18HttpIdStress(workers, perWorker, limit int) map[string]any {
+	var mu sync.Mutex
+	seen := map[string]int{}
+	srv := httptest.NewServer(http.HandlerFunc(func(w http.ResponseWriter, rq *http.Request) {
+		var req struct {
+			ID     json.RawMessage   `json:"id"`
+			Params []json.RawMessage `json:"params"`
+		}
+		_ = json.NewDecoder(rq.Body).Decode(&req)
+		mu.Lock()
+		seen[string(req.ID)]++
+		mu.Unlock()
+		w.Header().Set("Content-Type", "application/json")
+		p0 := "null"
+		if len(req.Params) > 0 {
+			p0 = string(req.Params[0])
+		}
+		_, _ = w.Write([]byte(`{"jsonrpc":"2.0","id":` + string(req.ID) + `,"result":` + p0 + `}`))
+	}))
+	defer srv.Close()
+	rc := rpcbackend.NewRPCClientWithOption(resty.New().SetBaseURL(srv.URL), rpcbackend.RPCClientOptions{MaxConcurrentRequest: int64(limit)})
+	var wg sync.WaitGroup
+	var wrong int64
+	for g := 0; g < workers; g++ {
+		wg.Add(1)
+		go func(g int) {
+			defer wg.Done()
+			for n := 0; n < perWorker; n++ {
+				var out int
+				want := g*1000000 + n
+				if rerr := rc.CallRPC(context.Background(), &out, "m", want); rerr != nil || out != want {
+					atomic.AddInt64(&wrong, 1)
+				}
+			}
+		}(g)
+	}
+	wg.Wait()
+	var problems []string
+	dups, worst := 0, ""
+	for id, n := range seen {
+		if n > 1 {
+			dups++
+			worst = id
+		}
+	}
+	if dups > 0 {
+		problems = append(problems, fmt.Sprintf("backend request id %s (and %d more) used more than once among %d requests from %d concurrent callers", worst, dups-1, workers*perWorker, workers))
+	}
+	if wrong > 0 {
+		problems = append(problems, fmt.Sprintf("%d of %d callers did not receive their own result", wrong, workers*perWorker))
+	}
+	return map[string]any{"op": "rpchttp.run", "probe": "idstress", "limit": limit, "ops": []any{}, "requests": workers * perWorker, "problems": problems}
+}
+
 func init() {
 	register(&Suite{Prop: "C18",
 		Gen: func(c *Ctx) {
@@ -564,6 +620,12 @@ func init() {
 			for i := 0; i < nHTTP; i++ {
 				c.Add(c18HttpScenario(c.R, 1+c.R.Intn(64), c.R.Intn(9), 0), "http")
 			}
+			per := 2000
+			if c.Thorough() {
+				per = 20000
+			}
+			c.Add(c18HttpIdStress(16, per, 0), "http.idstress")
+			c.Add(c18HttpIdStress(16, per/2, 4), "http.idstress")
 		},
 		Impl: func(req map[string]any) any { return "precomputed" },
 		Judge: func(c *Ctx, req map[string]any, impl any, orc map[string]any) []Finding {
